@@ -13,8 +13,9 @@ from harness import atoms as AT
 
 GEN = True
 THEOREMS = {
-    'RsomeV.Props.C06': [
-    ],
+    'RsomeV.Props.C06': ['RsomeV.C06.dispatch_total', 'RsomeV.C06.layers_found', 'RsomeV.C06.legacy_N_objective_dropped'],
+    'RsomeV.Props.AtomsSoc': ['RsomeV.AtomsSoc.abs_sound', 'RsomeV.AtomsSoc.norm1_sound', 'RsomeV.AtomsSoc.norminf_sound', 'RsomeV.AtomsSoc.norm2_sound', 'RsomeV.AtomsSoc.square_sound', 'RsomeV.AtomsSoc.sumsqr_sound', 'RsomeV.AtomsSoc.rsocone_sound', 'RsomeV.AtomsSoc.foldBounds_spec', 'RsomeV.AtomsSoc.foldBounds_perm', 'RsomeV.AtomsSoc.foldBounds_feas'],
+    'RsomeV.Props.AtomsExp': ['RsomeV.AExp.exp_sound', 'RsomeV.AExp.log_sound', 'RsomeV.AExp.pexp_sound', 'RsomeV.AExp.plog_sound', 'RsomeV.AExp.entropy_sound', 'RsomeV.AExp.softplus_sound', 'RsomeV.AExp.kl_sound', 'RsomeV.AExp.encodeAtoms_sound'],
 }
 RULE = ("random deterministic models (1-3 variables, several bounds per entry in either order, <=/>=/== rows, 0-2 atom constraints "
         "with scaling and affine offset, linear or atom objective, min or max) through ro.Model and single-scenario dro.Model; "
@@ -96,6 +97,9 @@ def summed_forms(ctx):
 
 
 def run(ctx):
+    # correspondence: the Lean atom encoders vs the real do_math() on random single- and multi-atom models (exact)
+    C.run_difftest(ctx, 'test_atoms_soc.py', ctx.n(150, 3000), 'atom encodings A/M/I/E/S/Q/rsocone, bound folding, vtype vector')
+    C.run_difftest(ctx, 'test_atoms_exp.py', ctx.n(120, 2500), 'atom encodings X/L/P/F/pexp/plog/KL')
     summed_forms(ctx)
     for k in range(ctx.n(300, 5000)):
         seed = int(ctx.rng.integers(2 ** 31))
